@@ -197,7 +197,12 @@ class C18(Prop):
         fp = ImportFormatParams(**params) if params else None
         try:
             if mode == "canonical":
-                dbtext = "__canonical_imports__ = {%s}\n" % ", ".join("%r: %r" % (k, v) for k, v in entries)
+                # several assignments are merged by ImportMap._merge in order
+                cuts = [0] + sorted(set(case.get("dbsplit") or [])) + [len(entries)]
+                dbtext = ""
+                for a, b in zip(cuts, cuts[1:]):
+                    if b > a:
+                        dbtext += "__canonical_imports__ = {%s}\n" % ", ".join("%r: %r" % (k, v) for k, v in entries[a:b])
                 if case.get("forget"):
                     dbtext += "__forget_imports__ = [%s]\n" % ", ".join(repr(k) for k in case["forget"])
                 db = ImportDB(dbtext)
@@ -353,7 +358,10 @@ class C18(Prop):
         # behaviour under the aliasing universe
         t_in, t_out = G.run_both(case["mods"], entries, text, out)
         if any(x.startswith("EXC ") or x == "SyntaxError" for x in t_in):
-            return fails + [dict(base, what="harness: input program fails in its own universe", trace=t_in[-3:])]
+            # the input program does not run in its own universe: no reference behaviour, nothing is claimed
+            # (a generator defect; visible as `input_fails` in the evidence distribution)
+            obs["input_fails"] = True
+            return fails[:4]
         if t_in != t_out:
             k = 0
             while k < min(len(t_in), len(t_out)) and t_in[k] == t_out[k]:
@@ -504,6 +512,10 @@ class C18(Prop):
             inc("depth_changes")
         if case.get("forget"):
             inc("with_forget")
+        if obs.get("input_fails"):
+            inc("input_fails")
+        if case.get("dbsplit"):
+            inc("db_two_assignments")
         if obs.get("out") is not None and obs["out"] != case["text"]:
             inc("changed")
 
